@@ -23,6 +23,22 @@ fn dt(s: &str) -> DataType {
         "v128" => DataType::V128,
         "funcref" => DataType::FuncRefNull,
         "externref" => DataType::ExternRefNull,
+        // abstract heap types, nullable ("xnull") and not ("x")
+        "anynull" => DataType::AnyNull,
+        "any" => DataType::Any,
+        "eqnull" => DataType::EqNull,
+        "eq" => DataType::Eq,
+        "structnull" => DataType::StructNull,
+        "struct" => DataType::Struct,
+        "arraynull" => DataType::ArrayNull,
+        "array" => DataType::Array,
+        "i31null" => DataType::I31Null,
+        "i31" => DataType::I31,
+        "nonenull" => DataType::NoneNull,
+        "nofuncnull" => DataType::NoFuncNull,
+        "noexternnull" => DataType::NoExternNull,
+        "func" => DataType::FuncRef,
+        "extern" => DataType::ExternRef,
         "i8" => DataType::I8,
         "i16" => DataType::I16,
         x => panic!("dt {}", x),
@@ -38,7 +54,27 @@ fn vt(s: &str) -> wasm_encoder::ValType {
         "v128" => V128,
         "funcref" => wasm_encoder::ValType::FUNCREF,
         "externref" => wasm_encoder::ValType::EXTERNREF,
-        x => panic!("vt {}", x),
+        x => {
+            use wasm_encoder::{AbstractHeapType as A, HeapType, RefType};
+            let (name, nullable) = match x.strip_suffix("null") {
+                Some(n) => (n, true),
+                None => (x, false),
+            };
+            let ty = match name {
+                "any" => A::Any,
+                "eq" => A::Eq,
+                "struct" => A::Struct,
+                "array" => A::Array,
+                "i31" => A::I31,
+                "none" => A::None,
+                "nofunc" => A::NoFunc,
+                "noextern" => A::NoExtern,
+                "func" => A::Func,
+                "extern" => A::Extern,
+                _ => panic!("vt {}", x),
+            };
+            wasm_encoder::ValType::Ref(RefType { nullable, heap_type: HeapType::Abstract { shared: false, ty } })
+        }
     }
 }
 fn st(s: &str) -> wasm_encoder::StorageType {
@@ -58,6 +94,34 @@ fn hex(b: &[u8]) -> String {
     b.iter().map(|x| format!("{:02x}", x)).collect()
 }
 
+/// code section from raw bodies; body 1 ($f2) gets its `(2 x i32)` local group split into `(1 x i32)(1 x i32)`
+fn emit_code(out: &mut Vec<u8>, bodies: &[Vec<u8>]) {
+    let leb = |mut v: u32, o: &mut Vec<u8>| loop {
+        let b = (v & 0x7f) as u8;
+        v >>= 7;
+        if v == 0 {
+            o.push(b);
+            break;
+        }
+        o.push(b | 0x80);
+    };
+    let mut sec = vec![];
+    leb(bodies.len() as u32, &mut sec);
+    for (k, b) in bodies.iter().enumerate() {
+        let mut body = b.clone();
+        if k == 1 && body.len() >= 3 && body[0] == 0x01 && body[1] == 0x02 && body[2] == 0x7f {
+            let mut nb = vec![0x02, 0x01, 0x7f, 0x01, 0x7f];
+            nb.extend_from_slice(&body[3..]);
+            body = nb;
+        }
+        leb(body.len() as u32, &mut sec);
+        sec.extend_from_slice(&body);
+    }
+    out.push(10);
+    leb(sec.len() as u32, out);
+    out.extend_from_slice(&sec);
+}
+
 pub fn base_module(base: &J) -> Vec<u8> {
     let mut w = String::from("(module\n");
     match base["types"].as_str().unwrap_or("plain") {
@@ -74,13 +138,41 @@ pub fn base_module(base: &J) -> Vec<u8> {
     w += "  (func $f1 (param i32) (local i64 i64) i32.const 111 drop)\n";
     let locals = match base["locals"].as_str().unwrap_or("none") {
         "a" => "(local i32)",
-        "aa" => "(local i32 i32)",
+        "aa" | "aa_split" => "(local i32 i32)",
         "ab" => "(local i32) (local f64)",
         _ => "",
     };
     w += &format!("  (func $f2 {} i32.const 222 drop call $imp)\n", locals);
     w += "  (memory 1)\n  (global $g0 (mut i32) (i32.const 5))\n  (export \"f1\" (func $f1)) (export \"g0\" (global $g0)) (export \"mem0\" (memory 0))\n  (data (i32.const 0) \"base\")\n)\n";
-    let plain = wat::parse_str(&w).expect("content base");
+    let mut plain = wat::parse_str(&w).expect("content base");
+    if base["locals"] == "aa_split" {
+        // the same two i32 locals of $f2, declared as TWO groups of one (valid; text tools always merge such runs)
+        let mut out = plain[..8].to_vec();
+        let mut bodies: Vec<Vec<u8>> = vec![];
+        let mut code_emitted = false;
+        use wasm_encoder::Section;
+        for p in wasmparser::Parser::new(0).parse_all(&plain) {
+            let p = p.expect("content base parses");
+            if let wasmparser::Payload::CodeSectionEntry(b) = &p {
+                bodies.push(plain[b.range()].to_vec());
+                continue;
+            }
+            if let wasmparser::Payload::CodeSectionStart { .. } = &p {
+                continue;
+            }
+            if let Some((id, range)) = p.as_section() {
+                if id > 10 && !bodies.is_empty() && !code_emitted {
+                    emit_code(&mut out, &bodies);
+                    code_emitted = true;
+                }
+                wasm_encoder::RawSection { id, data: &plain[range] }.append_to(&mut out);
+            }
+        }
+        if !code_emitted {
+            emit_code(&mut out, &bodies);
+        }
+        plain = out;
+    }
     let ncust = base["customs"].as_u64().unwrap_or(0);
     let cpos = base["cpos"].as_str().unwrap_or("end");
     // re-assemble the binary section by section so that the custom sections can sit anywhere:
